@@ -2,7 +2,7 @@
    TestRequest is a sign of life: the all-types round of the inbound dispatch reaches the timer hook
    and leaves the waiting state (C09). *)
 From Coq Require Import List ZArith Bool.
-From SF Require Import Bytes Values Wire Parse Session.
+From SF Require Import Bytes Values Wire Parse Session Session_c07.
 Import ListNotations.
 Open Scope N_scope.
 
@@ -88,6 +88,21 @@ Proof.
   intros V F G St. pose proof (round_clears_waiting cfg d _ s F G St) as R.
   destruct (run_in_handlers cfg s (pool_get (s_in s) ALL) d) as [s1 o1] eqn:E.
   exists s1, o1. split; [reflexivity|]. split; [exact R|]. unfold serve. rewrite V, E. reflexivity.
+Qed.
+
+
+(* in a state whose pools are well-formed (each session handler under its own key: an invariant of
+   every history, Session_c07) the all-types pool holds nothing but the session's two hooks and
+   application handlers; if those accept, the premise of the sign-of-life theorem holds *)
+Lemma pools_ok_passes s :
+  pools_ok s ->
+  Forall (fun h => match h with HApp _ acc => acc = true | _ => True end) (pool_get (s_in s) ALL) ->
+  Forall passes (pool_get (s_in s) ALL).
+Proof.
+  intros P A. specialize (P ALL). induction (pool_get (s_in s) ALL) as [|h r IH]; [constructor|].
+  inversion P as [|? ? Ph Pr]; subst. inversion A as [|? ? Ah Ar]; subst.
+  constructor; [|exact (IH Pr Ar)].
+  destruct h; cbn [in_ok passes] in *; try exact I; try exact Ah; try discriminate Ph.
 Qed.
 
 (* non-vacuity: an accepting session that knows the SequenceReset type, probing; the peer's only sign
